@@ -260,6 +260,9 @@ func detInput(c *fw.Ctx, idx int, family string) (*input, error) {
 	if family == "mk" {
 		return genMultiKeyInput(c.Rng(idx, "c09-mk"), detOps)
 	}
+	if family == "al" {
+		return genAliasInput(c.Rng(idx, "c09-al"), aliasOps)
+	}
 	return genInput(c.Rng(idx, "c09"), detOps, false)
 }
 
@@ -375,7 +378,8 @@ func runDetFamily(c *fw.Ctx, idx int, family string, mask, engineMask int, cross
 	}
 	fw.SetContext(nil)
 	usable := make([]bool, n)
-	usableWire := make([]bool, n) // false: one cached plan was seen to send varying requests
+	hasMergeAlias := make([]bool, n) // al family: the subgraph operation carries planner-generated merge aliases
+	usableWire := make([]bool, n)    // false: one cached plan was seen to send varying requests
 	for j := range usableWire {
 		usableWire[j] = true
 	}
@@ -474,6 +478,23 @@ func runDetFamily(c *fw.Ctx, idx int, family string, mask, engineMask int, cross
 		}
 		if in.family == "mk" {
 			mkEvidence(&res, in, q, base)
+		}
+		if in.family == "al" {
+			res.Count("al_operations", 1)
+			for _, rq := range base.Reqs {
+				if strings.Contains(rq.Query, "__internal_merge_") {
+					hasMergeAlias[j] = true
+				}
+			}
+			if hasMergeAlias[j] {
+				res.Count("al_operations_with_merge_aliases", 1)
+				if ok {
+					keys = append(keys, fw.HashKey(in.layoutHash(), q.Text, q.Vars))
+				}
+			}
+			if strings.Contains(base.Raw, `"errors"`) {
+				res.Count("al_responses_with_errors", 1)
+			}
 		}
 		if ok && len(base.Reqs) >= 2 && base.NEnt >= 1 {
 			keys = append(keys, fw.HashKey(in.layoutHash(), q.Text, q.Vars))
@@ -594,6 +615,19 @@ func runDetFamily(c *fw.Ctx, idx int, family string, mask, engineMask int, cross
 				if usable[j] {
 					seq = append(seq, j)
 				}
+			}
+		}
+		if in.family == "al" && m == 0 {
+			res.Count("al_cases", 1)
+			after := false
+			for _, j := range seq {
+				if after {
+					res.Count("al_reused_planner_plans_after_a_merge_alias_plan", 1)
+				}
+				after = after || hasMergeAlias[j]
+			}
+			if after {
+				res.Count("al_histories_with_merge_aliases", 1)
 			}
 		}
 		twin, _ := newPlanner(cfgA)
